@@ -5,7 +5,7 @@
 From Coq Require Import ZArith Permutation.
 From ReqV Require Import Lib.Bytes Model.Form Model.Multipart Model.ReqBody Model.Progress
   Proofs.FormProofs Proofs.MultipartProofs Proofs.ReqBodyProofs Proofs.ProgressProofs
-  Model.Session Proofs.SessionProofs.
+  Model.Session Proofs.SessionProofs Model.BodySetters Proofs.BodySettersProofs.
 
 (* ------------------------------------------------------------------ url-encoded forms *)
 
@@ -360,6 +360,28 @@ Theorem C17_interleaving_independent : forall s i ops,
   snd (sstep (srun_state s1 ops) (SFinish i)) = snd (sstep s (SSend i)).
 Proof. exact interleaving_independent. Qed.
 Print Assumptions C17_interleaving_independent.
+
+(* ------------------------------------------------------------------ several body setters on one request *)
+
+(* the last body setter wins: whatever was set before (a value to marshal, bytes, pre-marshalled
+   JSON / XML, a reader), an execution sends what the last setter supplied *)
+Theorem C17_last_setter_wins : forall l x,
+  snd (execute (fold_left apply_setter (l ++ [x]) bf0)) =
+  body_of_setter (bf_ct (fold_left apply_setter l bf0)) x.
+Proof. exact last_setter_wins. Qed.
+Print Assumptions C17_last_setter_wins.
+
+Theorem C17_earlier_setters_irrelevant : forall l l' x,
+  bf_ct (fold_left apply_setter l bf0) = bf_ct (fold_left apply_setter l' bf0) ->
+  snd (execute (fold_left apply_setter (l ++ [x]) bf0)) =
+  snd (execute (fold_left apply_setter (l' ++ [x]) bf0)).
+Proof. exact earlier_setters_irrelevant. Qed.
+Print Assumptions C17_earlier_setters_irrelevant.
+
+Theorem C17_execute_again_same : forall s,
+  bf_stream s = None -> snd (execute (fst (execute s))) = snd (execute s).
+Proof. exact execute_again_same. Qed.
+Print Assumptions C17_execute_again_same.
 
 (* ------------------------------------------------------------------ the code before the repairs *)
 
